@@ -822,6 +822,39 @@ func genPutDDoc(rt *rapid.T, r *Run) (Op, bool) {
 	if len(r.W.Handles) > 1 {
 		op.H = rapid.IntRange(0, len(r.W.Handles)-1).Draw(rt, "dd.h")
 	}
+	if existing := r.ddocs(op.C); len(existing) > 0 && chance(rt, 20, "dd.reduceonly") {
+		// the same design document again with nothing but a reduce function changed
+		names := make([]string, 0, len(existing))
+		for dd := range existing {
+			names = append(names, dd)
+		}
+		sort.Strings(names)
+		dd := pick(rt, names, "dd.ro.name")
+		specs := map[string]ViewSpec{}
+		vnames := make([]string, 0)
+		for vn, sp := range existing[dd] {
+			specs[vn] = sp
+			vnames = append(vnames, vn)
+		}
+		sort.Strings(vnames)
+		if len(vnames) > 0 {
+			vn := pick(rt, vnames, "dd.ro.view")
+			sp := specs[vn]
+			choices := []string{"", "_count"}
+			numeric := true
+			for _, e := range sp.Emits {
+				parts := strings.Split(e, "|")
+				numeric = numeric && (parts[1] == "one" || (parts[1] == "n" && parts[0] == "n"))
+			}
+			if numeric {
+				choices = append(choices, "_sum") // (_sum needs numeric values)
+			}
+			sp.Reduce = pick(rt, choices, "dd.ro.reduce")
+			specs[vn] = sp
+			op.View = &ViewOp{DDoc: dd, Specs: specs}
+			return op, true
+		}
+	}
 	specs := map[string]ViewSpec{}
 	n := pick(rt, []int{1, 1, 1, 2, 2, 2, 2, 0}, "dd.nviews") // (a design document may have no views at all)
 	for i := 0; i < n; i++ {
